@@ -25,7 +25,13 @@ def run_driver(ctx, binp, args, label, timeout=1800):
             ctx.report("panic:" + label, "real code panicked in cmd/codec (%s): %s" % (label, o.strip().splitlines()[:3]), rp)
             return out, None
         raise Infra("codec driver failed rc=%s (%s): %s" % (rc, label, o[-2000:]))
-    return out, json.load(open(os.path.join(out, "result.json")))
+    res = json.load(open(os.path.join(out, "result.json")))
+    b = (res.get("extra") or {}).get("budget") or {}
+    bs = ctx.cov.setdefault("termination_budget", {"flaky": 0, "max_ms": 0.0, "max_alloc_mb": 0.0})
+    bs["flaky"] += b.get("flaky", 0)
+    bs["max_ms"] = round(max(bs["max_ms"], b.get("max_ms", 0.0)), 1)
+    bs["max_alloc_mb"] = round(max(bs["max_alloc_mb"], b.get("max_alloc_mb", 0.0)), 1)
+    return out, res
 
 
 def report_devs(ctx, devs, label, how):
@@ -117,7 +123,7 @@ def mutants(ctx, binp, n, label, seed_offset=0):
     how = {"mode": "mutate", "seed": seed, "n": n}
     report_devs(ctx, res["deviations"], "mutants-" + label, how)
     events = read_ndjson(os.path.join(out, "trace.ndjson"))
-    drop = {d["index"] for d in res["deviations"]}          # already reported; the rest must be a behaviour of the spec
+    drop = {d["index"] for d in res["deviations"] if d["index"] >= 0}   # already reported; the rest must be a behaviour of the spec
     validated = 0
     for attempt in range(8):
         evs = _renumber(events, drop)
